@@ -30,14 +30,14 @@ Definition sim2_args (f : nat) : Prop :=
 Definition sim2_node (f : nat) : Prop :=
   forall st line i r st' me d,
     eval_node f st line i = (r, st') -> r <> OutOfFuel ->
-    Good st -> defs_ok (s_cells st) -> s_reent st = false ->
+    Good st -> defs_ok (s_cells st) -> s_reent st = false -> d = List.length (s_stack st) - 1 ->
     Post st st' (is_val r)
       (forall g r' ds, dr_node g (defs_of st) (input_data st) i = (r', ds) -> r' <> OutOfFuel ->
                        Forall (cov_pending st' (nearest_cached st (s_stack st)) me d) ds).
 Definition sim2_formula (f : nat) : Prop :=
   forall st cl i r st' me d,
     eval_formula f st cl i = (r, st') -> r <> OutOfFuel ->
-    Good st -> defs_ok (s_cells st) -> s_reent st = false ->
+    Good st -> defs_ok (s_cells st) -> s_reent st = false -> d = List.length (s_stack st) - 1 ->
     lookup_cell (s_cells st) (fst i) = Some cl ->
     (if cl_cached cl then lookup_data (s_data st) i else None) = None ->
     Post st st' (is_val r)
@@ -72,6 +72,9 @@ Proof. intros G R H. eapply Forall_impl; [|exact H]. intros x. now apply cov_pen
 
 Lemma Ctx_frame st st' me d : frame st st' -> Ctx st me d -> Ctx st' me d.
 Proof. intros (_ & K & _) (key & rest & E & D). exists key, rest. split; [congruence|assumption]. Qed.
+
+Lemma Ctx_depth st me d : Ctx st me d -> d = List.length (s_stack st) - 1.
+Proof. intros (key & rest & E & D). rewrite E, D. simpl. now rewrite Nat.sub_0_r. Qed.
 
 Lemma nc_frame st st' : frame st st' ->
   nearest_cached st' (s_stack st') = nearest_cached st (s_stack st).
@@ -236,7 +239,7 @@ Proof.
       destruct (s_reent st1) eqn:R1; [left; eapply MN; eauto|].
       destruct P1 as [P1|(G1 & P1)]; [congruence|].
       destruct (P1 eq_refl) as (W1 & S1 & C1).
-      pose proof (IHn _ _ _ _ _ me d H Hr G1 (defs_ok_frame _ _ F1 Hok) R1) as P2.
+      pose proof (IHn _ _ _ _ _ me d H Hr G1 (defs_ok_frame _ _ F1 Hok) R1 (Ctx_depth _ _ _ (Ctx_frame _ _ _ _ F1 HC))) as P2.
       destruct P2 as [P2|(G2 & P2)]; [now left|right]. split; [exact G2|].
       intros Hv. destruct (P2 Hv) as (W2 & S2 & C2).
       split; [eapply Grow_trans; eauto|]. split; [eapply incl_tran; eauto|].
@@ -314,7 +317,7 @@ Proof.
       assert (ds = d1 ++ d2) by (destruct rb; inversion Hd; reflexivity). subst ds.
       apply Forall_app. split; assumption.
   - (* ---------------- element requested from a formula ---------------- *)
-    intros st line i r st' me d H Hr HG Hok Hre. simpl in H.
+    intros st line i r st' me d H Hr HG Hok Hre Hdd. simpl in H.
     destruct (lookup_cell (s_cells st) (fst i)) as [cl|] eqn:El.
     2:{ inversion H; subst. right. split; [exact HG|]. intros Hv; discriminate. }
     destruct (if cl_cached cl then lookup_data (s_data st) i else None) as [v|] eqn:Eh.
@@ -346,7 +349,7 @@ Proof.
         intros x _. exact I.
     + eapply IHf; eauto.
   - (* ---------------- formula execution ---------------- *)
-    intros st cl i r st' me d H Hr HG Hok Hre El Em. pose proof H as H0. simpl in H.
+    intros st cl i r st' me d H Hr HG Hok Hre Hdd El Em. pose proof H as H0. simpl in H.
     destruct (Nat.ltb (s_maxdepth st) (List.length (s_stack st))).
     { inversion H; subst. right. split; [exact HG|]. intros Hv; discriminate. }
     set (st1 := upd_reent (upd_log (upd_stack st (i :: s_stack st)) (i :: s_log st))
@@ -460,7 +463,7 @@ Proof.
       * unfold cov_pending. destruct (nearest_cached st (s_stack st)) as [jc|] eqn:En; [|exact I].
         simpl. apply (Hcall jc). now rewrite Hnc2.
       * eapply Forall_impl; [|exact CovB]. intros x Hx.
-        apply (cov_pending_after_uncached st2 (pop_frame st2) (nearest_cached st (s_stack st)) i (s_stack st) me d x K2).
+        apply (cov_pending_after_uncached st2 (pop_frame st2) (nearest_cached st (s_stack st)) i (s_stack st) me d x K2 Hdd).
         -- apply W'.
         -- apply W'.
         -- apply W'.
